@@ -66,6 +66,17 @@ prop("C34", kind="sim", quick_runs=3000, thorough_s=600,
      probes=["state_changes", "renames", "getorcreate_existing"])
 
 
+prop("C12", kind="sim", quick_runs=4000, thorough_s=600,
+     rule="one run = one seeded tree (schema, shape and size swarm-drawn) and a history of 1-6 (thorough: up to 14) DeleteNode calls at container, list, "
+          "list-entry, leaf, leaf-list, ordered-list, shadow, absent-key, absent-sibling and (fault configuration) keyless-list and garbage paths, "
+          "some repeated, some with PreferShadowPath; after each call the leaf set computed by the harness's walker is compared with the model "
+          "'remove everything at or below p, keep everything else', GetNode is queried, and emptied ancestors must be pruned; "
+          "distinct = distinct (package, per-step outcome trace) hashes; non-trivial = at least one delete removed data",
+     fault_kinds=["failing_delete"],
+     probes=["delete_with_data", "delete_without_data", "deleted_twice", "path_kind:leaf", "path_kind:interior", "path_kind:absent-key",
+             "path_kind:absent-sibling", "path_kind:shadow", "path_kind:list-nokey", "path_kind:garbage"])
+
+
 def run_workers(binp, pid, tier, base_seed, total_runs, deadline_s, extra_args=None, env=None, workers=None):
     """Runs hsim over [base_seed, base_seed+total_runs) split across workers. Returns parsed lines."""
     workers = workers or min(NCPU, 16)
@@ -163,10 +174,11 @@ def file_violations(pid, binp, results, info, extra_args=None, env=None):
 
 
 def write_evidence(pid, tier, seed, cov, assumptions, wall, violations):
-    os.makedirs(os.path.join(VERIF, "evidence"), exist_ok=True)
+    evdir = os.environ.get("VERIF_EVIDENCE_DIR") or os.path.join(VERIF, "evidence")
+    os.makedirs(evdir, exist_ok=True)
     ev = {"property_id": pid, "tier": tier, "seed": seed, "level": "exploration", "coverage": cov,
           "assumptions": assumptions, "wall_s": round(wall, 2), "violations": violations}
-    with open(os.path.join(VERIF, "evidence", pid + ".json"), "w") as f:
+    with open(os.path.join(evdir, pid + ".json"), "w") as f:
         json.dump(ev, f, indent=1)
         f.write("\n")
 
